@@ -7,7 +7,7 @@ from bridge_env import Bid, Card, Hands, Player, Suit, Vul
 from bridge_env.network_bridge.client import Client
 from bridge_env.network_bridge.server import PlayerThread, Server
 from bridge_env.network_bridge.socket_interface import MessageInterface
-from pyvc.dsl import (Bool, Card as CardS, CardSet, Const, Enum, Int, Obj, OneOf, Opt, Shape, Tuple,
+from pyvc.dsl import (Bool, Card as CardS, CardSet, Const, Enum, Int, Obj, OneOf, Opt, Shape, Text, Tuple,
                       contract, lemma, transparent)
 from pyvc.speclib import card_in, conj, disj, forall, iff, implies, ite, same, seq_get
 from pyvc import strings as XS
@@ -95,6 +95,7 @@ def _bid_msg_sample(rng):
 
 @contract('bridge_env.network_bridge.socket_interface.MessageInterface.parse_bid', props=P)
 class _parse_bid:
+    at_calls = 'abstract'
     fresh_params = _bid_msg
     sample_params = _bid_msg_sample
     returns = Enum(Bid)
@@ -124,6 +125,9 @@ def _alert_msg_sample(rng):
 
 @contract('bridge_env.network_bridge.server.Server.remove_alert_word', props=P + ['C08'])
 class _remove_alert:
+    at_calls = 'abstract'
+    abstract_raises = ()
+    returns = Text(excl='\r')
     fresh_params = _alert_msg
     sample_params = _alert_msg_sample
     modifies = []
@@ -153,6 +157,8 @@ def _card_msg_sample(rng):
 
 @contract('bridge_env.network_bridge.socket_interface.MessageInterface.parse_card', props=P)
 class _parse_card:
+    at_calls = 'abstract'
+    abstract_raises = (Exception,)    # Exception / KeyError / IndexError / ValueError: all are Exceptions
     fresh_params = _card_msg
     sample_params = _card_msg_sample
     returns = CardS()
@@ -291,6 +297,8 @@ def _connect_msg_sample(rng):
 @contract('bridge_env.network_bridge.server.PlayerThread.parse_connection_info',
           props=P + ['C20'])
 class _parse_connection_info:
+    at_calls = 'abstract'
+    returns = Tuple(Text(excl=NAME_EXCL), Enum(Player), Int(0))
     fresh_params = _connect_msg
     sample_params = _connect_msg_sample
     modifies = []
